@@ -4,7 +4,7 @@
    identifying attribute); invariant and [Public]: proofs/NamespaceProofs.v, NamespaceMain.v. *)
 From Coq Require Import List ZArith String.
 From Basyx Require Import model.Corr model.Namespace model.NamespaceObs proofs.NamespaceProofs proofs.NamespaceOps4
-  proofs.NamespaceHooks proofs.NamespaceMain.
+  proofs.NamespaceHooks proofs.NamespaceExtend proofs.NamespaceMain.
 Import ListNotations.
 Local Open Scope string_scope.
 
@@ -45,6 +45,35 @@ Theorem C01_atomic_reachable : forall c pool ops p, pool_ok pool -> Forall (op_w
 Proof.
   intros c pool ops p H F S E.
   exact (step_atomic c _ p (Inv_run c pool ops H) (run_hooks_wf c ops _ F (init_hooks_wf c pool)) S E).
+Qed.
+
+(* Multi-element calls with a rollback.  [same_upto regen s s']: same collections (owner, hooks,
+   positional order), same members, every element with the same parent, class, value type,
+   semantic id and identifying attribute - with [regen = Some i] the children of collection i may
+   carry another (re-generated, non-None) idShort.  The dict order inside a collection and the
+   uuid counter are not part of the claim. *)
+
+(* OrderedNamespaceSet.extend / +=: a rejected call leaves everything as it was. *)
+Theorem C01_extend_atomic : forall c pool ops r es, pool_ok pool ->
+  let s := run c pool ops in
+  is_ok (snd (step c s (Extend r es))) = false -> same_upto None s (fst (step c s (Extend r es))).
+Proof.
+  intros c pool ops r es H s E. exact (step_extend_atomic c s r es (Inv_run c pool ops H) E).
+Qed.
+
+(* SubmodelElementList.value = items, when the items are refused and the previous content can be
+   put back (the setter re-adds it with extend; [set_value] is exactly this composition): the list
+   holds the same elements in the same order with parent = the list; only their generated
+   idShorts are new. *)
+Theorem C01_value_setter_atomic : forall c pool ops i es old s1 o1 s2 x s3 o3, pool_ok pool ->
+  let s := run c pool ops in
+  order_of s i = Some old ->
+  set_delslice c s i None None = (s1, o1) -> set_extend c s1 i es = (s2, Err x) ->
+  set_extend c s2 i old = (s3, o3) -> is_ok o3 = true ->
+  set_value c s i es = (s3, Err x) /\ Inv c s3 /\ same_upto (Some i) s s3.
+Proof.
+  intros c pool ops i es old s1 o1 s2 x s3 o3 H s.
+  exact (value_setter_atomic c s i es old s1 o1 s2 x s3 o3 (Inv_run c pool ops H)).
 Qed.
 
 (* The branches of the model that stand for "cannot happen in Python" (ValueError of
